@@ -213,9 +213,9 @@ func checkC18(r *Run) {
 				noMap = bytes.TrimRight(noMap, "\n")
 				sumNM := sha256.Sum256(noMap)
 				dNM := hex.EncodeToString(sumNM[:8])
-				if old, ok := digests[rel]; ok && old != d && digestsNoMap[rel] == dNM && c18IsLegalVariant(origin[rel]) && c18IsLegalVariant(label) && !(c18IsSourceMapVariant(origin[rel]) && c18IsSourceMapVariant(label)) {
+				if old, ok := digests[rel]; ok && old != d && digestsNoMap[rel] == dNM && c18VariantOf(origin[rel]) != c18VariantOf(label) && c18IsLegalVariant(origin[rel]) && c18IsLegalVariant(label) && !(c18IsSourceMapVariant(origin[rel]) && c18IsSourceMapVariant(label)) {
 					viol("same-name-different-content:legal-link-appended-after-hashing:"+path.Ext(rel), fmt.Sprintf("%s is emitted with and without the trailing legal-comments link by two builds of this project (first by %s)", rel, origin[rel]), map[string]interface{}{"path": rel, "first_build": origin[rel]})
-				} else if old, ok := digests[rel]; ok && old != d && digestsNoMap[rel] == dNM && c18IsSourceMapVariant(origin[rel]) && c18IsSourceMapVariant(label) {
+				} else if old, ok := digests[rel]; ok && old != d && digestsNoMap[rel] == dNM && c18VariantOf(origin[rel]) != c18VariantOf(label) && c18IsSourceMapVariant(origin[rel]) && c18IsSourceMapVariant(label) {
 					viol("same-name-different-content:sourcemap-comment-appended-after-hashing:"+path.Ext(rel), fmt.Sprintf("%s is emitted with and without the trailing source map comment by two builds of this project (first by %s)", rel, origin[rel]), map[string]interface{}{"path": rel, "first_build": origin[rel]})
 				} else if old, ok := digests[rel]; ok && old != d {
 					if dbg := os.Getenv("VERIF_C18_DEBUG"); dbg != "" {
@@ -428,3 +428,7 @@ func c18IsLegalVariant(label string) bool {
 	v := label[strings.LastIndex(label, "/")+1:]
 	return v == "legal-linked" || v == "legal-external" || v == "legal-linked+sourcemap"
 }
+
+// c18VariantOf: the option-set part of a build label ("<edit>/<variant>"). The recorded findings concern two builds whose
+// source-map / legal-comments *modes* differ; two builds in the same mode must agree on the tail as well.
+func c18VariantOf(label string) string { return label[strings.LastIndex(label, "/")+1:] }
